@@ -401,6 +401,29 @@ func ruleTablePerDocument(w *World, r *Report) {
 			r.Bad(key, w.FnPos(pf), "Parse does not create a context through a constructor call when none was given (a pooled, cached or shared context would carry the id table from one document to the next)")
 			continue
 		}
+		// every value Parse itself puts into a Context-typed field is such a constructor result
+		foreign := ""
+		for _, b := range pf.Blocks {
+			for _, ins := range b.Instrs {
+				st, ok := ins.(*ssa.Store)
+				if !ok || !types.Identical(st.Val.Type(), ctxT) {
+					continue
+				}
+				if _, isField := st.Addr.(*ssa.FieldAddr); !isField {
+					continue
+				}
+				for _, leaf := range phiLeaves(st.Val) {
+					c, isCall := leaf.(*ssa.Call)
+					if !isCall || c.Common().StaticCallee() == nil || !w.InModule(c.Common().StaticCallee()) {
+						foreign = w.InstrPos(st)
+					}
+				}
+			}
+		}
+		if foreign != "" {
+			r.Bad(key, foreign, "Parse installs a context that is not the result of a constructor call made in this activation (recycled from a pool or cache): whatever the reset forgets — the table of used ids — is carried from one document to the next")
+			continue
+		}
 		r.OK(key, w.InstrPos(site), "created by "+w.FnKey(ctor)+" under the nil test")
 		// the constructor
 		ckey := w.FnKey(ctor) + ": fresh id table"
